@@ -42,7 +42,10 @@ RULE = ("holders of 1-25 samples (thorough: up to 40) of both shipped sample typ
         "reference objects kept alive), save_h5 twice to the same path with a smaller collection filled by add_theta + merge-then-save, a collection "
         "filled by one interaction model between instalments of add_observations (shared single-effect table), 127..129 / 255..257 samples, array "
         "dimension and table ids at 2^7, 2^8, 2^15, 2^16, 2^31, 2^32, 129-130 chain files. The oracle compares every attribute found by introspection "
-        "(dict-valued ones as sets of entries); exception classes, dict order, concat([]) and hand-edited files are compared with the model only. Non-trivial: >= 11 samples in one file (so that '10' < '2' alphabetically matters) or >= 2 chains of "
+        "(dict-valued ones as sets of entries); exception classes, dict order, concat([]) and hand-edited files are compared with the model only. Entry points (item 18): chain files "
+        "through the real calculate_scores.main() / calculate_distance_matrix.main() with probing plug-in scorer / metric (what the core receives: samples in "
+        "chain-major command-line order read via .thetas, iteration and get_theta; -1..-len, len refused; no growth; matrix entry (i,j) from samples i, j). "
+        "Verbose logging (item 19): every sixth case of every stream under vlib.common.verbose_logging(), commands with --verbose. Non-trivial: >= 11 samples in one file (so that '10' < '2' alphabetically matters) or >= 2 chains of "
         "unequal length.")
 
 SPECIAL64 = [0x0000000000000000, 0x8000000000000000, 0x0000000000000001, 0x800fffffffffffff, 0x000fffffffffffff,
@@ -265,6 +268,36 @@ def read_raw(fn):
     return head, groups
 
 
+def norm_group_names(groups):
+    """group names are compared by their integer value (that is how load_h5 reads them): `000007` and `7` are the same name"""
+    out = []
+    for g in groups:
+        k, tok = g.split("@", 1)
+        try:
+            k = str(int(k)) if k.strip().isdigit() else k
+        except ValueError:
+            pass
+        out.append(k + "@" + tok)
+    return out
+
+
+def layout_unexpected(res, case, where, detail):
+    """checklist item 20: the harness's own raw h5py access met a structure it does not know.  The file layout is not part of the property:
+    this is a broken TIE (counter + disagreement), never an oracle failure and never a crash; the oracles go through save_h5 / load_h5."""
+    res.count("layout.unexpected")
+    res.count("layout.unexpected." + where)
+    res.disagree("C10:raw-file-layout:" + where, {"kind": case.get("kind"), "cls": case.get("cls")}, "harness raw read: " + str(detail)[:300],
+                 "the layout harness/c10.py knows (root attrs n_thetas / theta_class, groups shared_params and private_params/<index>)")
+
+
+def read_raw_safe(fn, res, case, where):
+    try:
+        return read_raw(fn)
+    except Exception as e:
+        layout_unexpected(res, case, where, err_tok(e) + ": " + str(e))
+        return None
+
+
 def canon_file_line(line):
     """sort the group tokens and the dict entries of a model `c10.save` answer"""
     toks = line.split(" ")
@@ -281,7 +314,8 @@ def canon_file_line(line):
 
 
 # ------------------------------------------------------------------ screens for predictions
-def make_screen(rng, n_samples, n_treat, n_rows):
+def make_screen(rng, n_samples, n_treat, n_rows, masked_plates=0):
+    """masked_plates = m > 0: rows are spread over m+1 plates, all but the first unobserved (the scoring command needs unobserved plates)"""
     from batchie.data import Screen
     tn, td, sn = [], [], []
     # make sure every sample and every treatment occurs so that ids are 0..n-1
@@ -294,6 +328,11 @@ def make_screen(rng, n_samples, n_treat, n_rows):
         td.append([1.0, 1.0])
         sn.append("s%d" % (r % n_samples))
     n = len(sn)
+    if masked_plates:
+        pl = [r % (masked_plates + 1) for r in range(n)]
+        return Screen(observations=np.array([rng.random() for _ in range(n)]), observation_mask=np.array([p == 0 for p in pl], dtype=bool),
+                      sample_names=np.array(sn, dtype=str), plate_names=np.array(["p%d" % p for p in pl], dtype=str),
+                      treatment_names=np.array(tn, dtype=str), treatment_doses=np.array(td), control_treatment_name="control")
     return Screen(observations=np.array([rng.random() for _ in range(n)]), observation_mask=np.ones(n, dtype=bool),
                   sample_names=np.array(sn, dtype=str), plate_names=np.array(["p"] * n, dtype=str),
                   treatment_names=np.array(tn, dtype=str), treatment_doses=np.array(td), control_treatment_name="control")
@@ -354,7 +393,7 @@ def run_roundtrip(case, tmp, res, queue, rng, check_model=True):
     except Exception as e:
         res.fail("save_h5 raises on a non-empty holder", case, err_tok(e) + ": " + str(e)[:200], "file written", signature="C10:save-raises")
         return
-    head, groups = read_raw(fn)
+    raw = read_raw_safe(fn, res, case, "roundtrip")
     after_save = full_holder(h)
     if after_save != want_full:
         d = first_diff(want_full, after_save)
@@ -371,9 +410,10 @@ def run_roundtrip(case, tmp, res, queue, rng, check_model=True):
     if got_full != want_full:
         res.fail("reloaded holder differs from the saved one (size, number, order or a parameter bit pattern)", case,
                  first_diff(want_full, got_full), "bit-identical holder", signature="C10:reload-differs")
-    if check_model:
+    if check_model and raw is not None:
+        head, groups = raw
         samples = want.split(" ")[2:]
-        queue("save", case, " ".join(["c10.save", str(case["size"])] + samples), " ".join(["ok"] + head + sorted(groups)), canon=True)
+        queue("save", case, " ".join(["c10.save", str(case["size"])] + samples), " ".join(["ok"] + head + sorted(norm_group_names(groups))), canon=True)
         queue("load-h5order", case, " ".join(["c10.load"] + head + groups), got)
         sh = list(groups)
         rng.shuffle(sh)
@@ -391,18 +431,42 @@ def run_tamper(case, tmp, res, queue):
     h.save_h5(fn)
     n = len(case["thetas"])
     kind = case["tamper"]
-    with h5py.File(fn, "r+") as f:
-        if kind == "shrink":
-            f.attrs["n_thetas"] = case["arg"] % n                # 0 .. n-1 < number of groups
-        elif kind == "badkey":
-            f["private_params"].move(str(case["arg"] % n), "x%d" % (case["arg"] % n))
-        elif kind == "missing":
-            del f["private_params/%d/W" % (case["arg"] % n)]
-        elif kind == "extra":
-            f["private_params/%d" % (case["arg"] % n)].attrs["zzz"] = 1.5
-        elif kind == "noshared":
-            del f["shared_params/single_effect_lookup_keys1"]
-    head, groups = read_raw(fn)
+    # the structure is DISCOVERED from the file (children of the group that holds one sub-group per sample, ordered by the integer value of
+    # their names); names are not formatted by the harness.  Anything unexpected: tie + skip (checklist item 20).
+    try:
+        with h5py.File(fn, "r+") as f:
+            pg = f["private_params"] if "private_params" in f else None
+            if pg is None or len(pg) != n or not all(isinstance(pg[k], h5py.Group) for k in pg.keys()):
+                cands = [g for g in f.values() if isinstance(g, h5py.Group) and len(g) == n and all(isinstance(g[k], h5py.Group) for k in g.keys())]
+                if len(cands) != 1:
+                    raise KeyError("no group with one sub-group per sample")
+                pg = cands[0]
+            keys = sorted(pg.keys(), key=int)
+            target = keys[case["arg"] % n]
+            if kind == "shrink":
+                if "n_thetas" not in f.attrs:
+                    raise KeyError("no root attribute n_thetas")
+                f.attrs["n_thetas"] = case["arg"] % n                # 0 .. n-1 < number of groups
+            elif kind == "badkey":
+                pg.move(target, "x" + target)
+            elif kind == "missing":
+                ds = sorted(k for k in pg[target].keys() if isinstance(pg[target][k], h5py.Dataset))
+                if not ds:
+                    raise KeyError("sample group without datasets")
+                del pg[target]["W" if "W" in ds else ds[0]]
+            elif kind == "extra":
+                pg[target].attrs["zzz"] = 1.5
+            elif kind == "noshared":
+                sg = f["shared_params"]
+                ds = sorted(k for k in sg.keys())
+                del sg["single_effect_lookup_keys1" if "single_effect_lookup_keys1" in ds else ds[0]]
+    except Exception as e:
+        layout_unexpected(res, case, "tamper", err_tok(e) + ": " + str(e))
+        return
+    raw = read_raw_safe(fn, res, case, "tamper")
+    if raw is None:
+        return
+    head, groups = raw
     try:
         with quiet():
             back = ThetaHolder.load_h5(fn)
@@ -498,7 +562,7 @@ def run_save_twice(case, tmp, res, queue):
         second.add_theta(t)                                     # instalments
     want, want_full = show_holder(second), full_holder(second)
     second.save_h5(fn)
-    head, groups = read_raw(fn)
+    raw = read_raw_safe(fn, res, case, "save_twice")
     try:
         with quiet():
             back = ThetaHolder.load_h5(fn)
@@ -508,8 +572,10 @@ def run_save_twice(case, tmp, res, queue):
     if got_full != want_full:
         res.fail("a collection saved to a path that already held another (larger) saved collection does not come back: reloaded holder differs from "
                  "the one saved last", case, first_diff(want_full, got_full), "bit-identical holder", signature="C10:reload-differs")
-    queue("save-twice", case, " ".join(["c10.save", str(case["second"]["size"])] + want.split(" ")[2:]), " ".join(["ok"] + head + sorted(groups)), canon=True)
-    queue("load-after-save-twice", case, " ".join(["c10.load"] + head + groups), got)
+    if raw is not None:
+        head, groups = raw
+        queue("save-twice", case, " ".join(["c10.save", str(case["second"]["size"])] + want.split(" ")[2:]), " ".join(["ok"] + head + sorted(norm_group_names(groups))), canon=True)
+        queue("load-after-save-twice", case, " ".join(["c10.load"] + head + groups), got)
     # merge then save
     a, b = build_holder(case["first"]), build_holder({"cls": case["first"]["cls"], "size": 2, "thetas": case["first"]["thetas"][:2], "table": case["first"].get("table", [])})
     wm = " ".join(["ok", str(int(a.n_thetas) + int(b.n_thetas))] + full_holder(a).split(" ")[2:] + full_holder(b).split(" ")[2:])
@@ -685,7 +751,7 @@ def run_evaluate(case, tmp, res, queue):
         orders.append(list(reversed(case["order"])))          # the same files, the other way round on the command line
     for oi, order in enumerate(orders):
         out = os.path.join(tmp, "me%d.h5" % oi)
-        argv = ["evaluate_model", "--screen", sfn, "--thetas"] + [files[i] for i in order] + ["--output", out]
+        argv = ["evaluate_model", "--screen", sfn, "--thetas"] + [files[i] for i in order] + ["--output", out] + (["--verbose"] if case.get("verbose") else [])
         old = sys.argv
         sys.argv = argv
         try:
@@ -726,6 +792,158 @@ def run_evaluate(case, tmp, res, queue):
         if distinct:
             queue("evaluate" if oi == 0 else "evaluate-reversed", case, " ".join(["c10.eval"] + light), impl)
     return distinct
+
+
+# ------------------------------------------------------------------ checklist item 18: the commands that LOAD collections
+PROBE = []
+
+
+def _install_probes():
+    """plug-in classes the commands find through introspection.get_class (any attribute of a batchie module)"""
+    import batchie.distance.mse as dm
+    import batchie.scoring.size as sz
+    from batchie.core import DistanceMetric, Scorer
+
+    class VerifThetaProbe(Scorer):
+        """records the collection the scoring command hands to the scorer, read three ways, and probes the refusals on THAT object"""
+
+        def score(self, plates, distance_matrix, samples, rng, progress_bar):
+            n = len(samples.thetas)
+            rec = {"n_thetas": int(samples.n_thetas), "thetas": [full_sample(t) for t in samples.thetas], "iter": [full_sample(t) for t in samples]}
+            via, refused = [], {}
+            for i in range(n):
+                try:
+                    via.append(full_sample(samples.get_theta(i)))
+                except Exception as e:
+                    via.append(err_tok(e))
+            for i in list(range(-n, 0)) + [n, n + 1]:
+                try:
+                    samples.get_theta(i)
+                    refused[i] = False
+                except Exception:
+                    refused[i] = True
+            try:
+                samples.add_theta(samples.thetas[0])
+                grew = True
+                samples.thetas.pop()
+            except Exception:
+                grew = False
+            rec.update(via_get=via, refused=refused, grew=grew)
+            PROBE.append(rec)
+            return {k: 0.0 for k in plates}
+
+    class VerifPairProbe(DistanceMetric):
+        """records the two prediction vectors of every call; the returned distance is the call number"""
+
+        def distance(self, a, b):
+            PROBE.append((np.asarray(a).tobytes(), np.asarray(b).tobytes()))
+            return float(len(PROBE))
+    sz.VerifThetaProbe = VerifThetaProbe
+    dm.VerifPairProbe = VerifPairProbe
+
+
+def run_entry_points(case, tmp, res, queue):
+    """per-chain files written by the real save_h5 are handed, in a shuffled command-line order, to the real `calculate_scores.main()` and
+    `calculate_distance_matrix.main()` (load_h5 + concat + get_theta inside the command).  Oracle on what the core RECEIVES: the scorer gets
+    exactly the saved samples in chain-major order of the command line (declared size = sum), the object refuses negative indices -1..-len,
+    index len and further growth; the distance metric gets, for entry (i, j) of the written matrix, the predictions of samples i and j of that order."""
+    from batchie.cli import calculate_distance_matrix, calculate_scores
+    from batchie.distance_calculation import ChunkedDistanceMatrix
+    _install_probes()
+    sub = tempfile.mkdtemp(prefix="e_", dir=tmp)
+    srng = __import__("random").Random(case["screen_seed"])
+    screen = make_screen(srng, case["n_samples"], case["n_treat"], case["n_rows"], masked_plates=2)
+    sfn = os.path.join(sub, "screen.h5")
+    screen.save_h5(sfn)
+    files, fulls, preds = [], {}, {}
+    for ci, ch in enumerate(case["chains"]):
+        h = build_holder({"cls": case["cls"], "size": ch["size"], "thetas": ch["thetas"], "table": case.get("table", [])})
+        fn = os.path.join(sub, "chain%d.h5" % ci)
+        h.save_h5(fn)
+        files.append(fn)
+        fulls[ci] = [full_sample(t) for t in h.thetas]
+        preds[ci] = [np.asarray(t.predict_viability(screen)).tobytes() for t in h.thetas]
+    order = case["order"]
+    exp = [x for i in order for x in fulls[i]]
+    exp_pred = [x for i in order for x in preds[i]]
+    n = len(exp)
+    vflag = ["--verbose"] if case.get("verbose") else []
+    old = sys.argv
+    # ---- calculate_scores
+    dmf, out = os.path.join(sub, "dm.h5"), os.path.join(sub, "scores.h5")
+    dm = ChunkedDistanceMatrix(size=n)
+    for i in range(n):
+        for j in range(i):
+            dm.add_value(i, j, float(i + j + 1))
+    dm.save(dmf)
+    del PROBE[:]
+    sys.argv = ["calculate_scores", "--scorer", "VerifThetaProbe", "--data", sfn, "--thetas"] + [files[i] for i in order] + \
+               ["--distance-matrix", dmf, "--output", out, "--seed", "0"] + vflag
+    try:
+        with quiet():
+            calculate_scores.main()
+        err = None
+    except Exception as e:
+        err = err_tok(e) + ": " + str(e)[:200]
+    finally:
+        sys.argv = old
+    recs = [r for r in PROBE if isinstance(r, dict)]
+    if err is not None or not recs:
+        res.fail("calculate_scores on complete chain files does not reach the scorer", case, {"error": err, "file_order": order}, "the scorer is called",
+                 signature="C10:entry-point:calculate_scores")
+    else:
+        r = recs[0]
+        problems = []
+        for name in ("thetas", "iter", "via_get"):
+            if r[name] != exp:
+                k = next((j for j in range(min(len(exp), len(r[name]))) if exp[j] != r[name][j]), min(len(exp), len(r[name])))
+                problems.append("samples read through %s are not the saved samples in chain-major order of the command line (first difference at position %d of %d / %d)"
+                                % ({"thetas": ".thetas", "iter": "iteration", "via_get": "get_theta(0..n-1)"}[name], k, len(r[name]), len(exp)))
+        if r["n_thetas"] != sum(c["size"] for c in case["chains"]):
+            problems.append("declared size %d is not the sum of the files' declared sizes %d" % (r["n_thetas"], sum(c["size"] for c in case["chains"])))
+        served = sorted(i for i, ok in r["refused"].items() if not ok)
+        if served:
+            problems.append("out-of-range access served for indices %s (collection of %d samples)" % (served, n))
+        if r["grew"]:
+            problems.append("the complete collection accepted another sample")
+        if problems:
+            res.fail("calculate_scores: the collection the command loads from the chain files and hands to the scorer: " + problems[0], case,
+                     {"file_order": order, "samples_per_file": [len(fulls[i]) for i in order], "all": problems[:5]}, "the saved samples, chain-major, refusing",
+                     signature="C10:entry-point:calculate_scores")
+    # ---- calculate_distance_matrix
+    out2 = os.path.join(sub, "dist.h5")
+    del PROBE[:]
+    sys.argv = ["calculate_distance_matrix", "--data", sfn, "--thetas"] + [files[i] for i in order] + \
+               ["--distance-metric", "VerifPairProbe", "--n-chunks", "1", "--chunk-index", "0", "--output", out2] + vflag
+    try:
+        with quiet():
+            calculate_distance_matrix.main()
+        err = None
+        m = ChunkedDistanceMatrix.load(out2)
+    except Exception as e:
+        err = err_tok(e) + ": " + str(e)[:200]
+    finally:
+        sys.argv = old
+    calls = [r for r in PROBE if isinstance(r, tuple)]
+    if err is not None:
+        res.fail("calculate_distance_matrix raises on complete chain files", case, {"error": err, "file_order": order}, "a distance matrix",
+                 signature="C10:entry-point:calculate_distance_matrix")
+    else:
+        cur = int(m.current_index)
+        bad = None
+        if cur != n * (n - 1) // 2 or len(calls) != cur:
+            bad = "the matrix has %d entries / the metric was called %d times for %d samples" % (cur, len(calls), n)
+        else:
+            for k in range(cur):
+                i, j, v = int(m.row_indices[k]), int(m.col_indices[k]), float(m.values[k])
+                c = int(v) - 1
+                if not (0 <= c < len(calls)) or not (0 <= i < n and 0 <= j < n) or calls[c] != (exp_pred[i], exp_pred[j]):
+                    bad = "entry (%d, %d) of the written matrix was not computed from the predictions of samples %d and %d of the chain-major order" % (i, j, i, j)
+                    break
+        if bad:
+            res.fail("calculate_distance_matrix: " + bad, case, {"file_order": order, "samples_per_file": [len(fulls[i]) for i in order]},
+                     "entry (i, j) from samples i and j of the concatenation in command-line order", signature="C10:entry-point:calculate_distance_matrix")
+    return n >= 2
 
 
 class Tag:
@@ -935,6 +1153,14 @@ def gen_eval_case(rng, cls, force_big):
 
 
 def run_case(case, tmp, res, queue, rng):
+    """checklist item 19: a case marked verbose runs the way `-v/--verbose` runs (the commands additionally get --verbose)"""
+    if case.get("verbose"):
+        with common.verbose_logging():
+            return _run_case(case, tmp, res, queue, rng)
+    return _run_case(case, tmp, res, queue, rng)
+
+
+def _run_case(case, tmp, res, queue, rng):
     k = case["kind"]
     if k == "roundtrip":
         run_roundtrip(case, tmp, res, queue, rng)
@@ -952,6 +1178,8 @@ def run_case(case, tmp, res, queue, rng):
         run_zerodim(case, tmp, res, queue)
     elif k == "evaluate":
         return run_evaluate(case, tmp, res, queue)
+    elif k == "entry":
+        return run_entry_points(case, tmp, res, queue)
     elif k == "concat":
         run_concat(case, res, queue)
     elif k == "reuse":
@@ -966,6 +1194,17 @@ def run(ctx, res):
     rng = ctx.subrng("c10")
     tmp = tempfile.mkdtemp(prefix="verif_c10_")
     lines, expect, meta = [], [], []
+
+    vcount = {"n": 0}
+
+    def vb(case):
+        """checklist item 19: every sixth case of every stream (deterministic) runs under verbose logging"""
+        vcount["n"] += 1
+        if vcount["n"] % 6 == 3:
+            case["verbose"] = True
+            res.count("class.verbose-logging")
+            res.count("class.verbose-logging." + case["kind"])
+        return case
 
     def queue(where, case, line, impl, canon=False, prefix=False):
         lines.append(line)
@@ -986,7 +1225,7 @@ def run(ctx, res):
             res.evaluations += 1
             res.count("class.temporaries")
             res.nontrivial.add(common.short_hash(case))
-            run_case(case, tmp, res, queue, rng)
+            run_case(vb(case), tmp, res, queue, rng)
         for t in range(ctx.scale(10, 100, 50)):                # item 12: save twice to the same path / merge then save
             first, second = gen_sized_case(rng, 7, 14), gen_sized_case(rng, 1, 6)
             case = {"kind": "save_twice", "first": first, "second": second}
@@ -995,12 +1234,12 @@ def run(ctx, res):
             if len(first["thetas"]) >= 11:
                 res.count("class.save_twice_same_path.first_had_11plus")
             res.nontrivial.add(common.short_hash(case))
-            run_case(case, tmp, res, queue, rng)
+            run_case(vb(case), tmp, res, queue, rng)
         for t in range(ctx.scale(8, 80, 40)):                  # item 12: the interaction model's shared table grows by instalments
             case = gen_instalments_case(rng)
             res.evaluations += 1
             res.count("class.instalments_shared_table")
-            if run_case(case, tmp, res, queue, rng):
+            if run_case(vb(case), tmp, res, queue, rng):
                 res.count("class.instalments_shared_table.one_table_for_all_samples")
             res.nontrivial.add(common.short_hash(case))
         for n in ([rng.choice(WIDTHS[:3]), rng.choice(WIDTHS[3:])] if ctx.tier == "quick" else WIDTHS * 2):   # item 13
@@ -1008,7 +1247,7 @@ def run(ctx, res):
             res.evaluations += 1
             res.count("class.width_boundary.n_samples_%d" % n)
             res.nontrivial.add(common.short_hash(case))
-            run_case(case, tmp, res, queue, rng)
+            run_case(vb(case), tmp, res, queue, rng)
         # 1. save / load with arbitrary bit patterns
         for t in range(ctx.scale(150, 1500, 700)):
             case = gen_roundtrip_case(rng, n_max)
@@ -1022,7 +1261,7 @@ def run(ctx, res):
                 res.count("roundtrip.incomplete")
             if n >= 11:
                 res.nontrivial.add(common.short_hash(case))
-            run_case(case, tmp, res, queue, rng)
+            run_case(vb(case), tmp, res, queue, rng)
             if t < 2:
                 res.sample({"kind": "roundtrip", "cls": case["cls"], "n": n, "size": case["size"], "first_theta": case["thetas"][0]})
         # 1b. tampered files: the refusing branches of load
@@ -1034,13 +1273,13 @@ def run(ctx, res):
             case["arg"] = rng.randrange(1000)
             res.evaluations += 1
             res.count("tamper." + case["tamper"])
-            run_case(case, tmp, res, queue, rng)
+            run_case(vb(case), tmp, res, queue, rng)
         for t in range(ctx.scale(10, 60, 30)):
             case = gen_roundtrip_case(rng, 12)
             case.update(kind="zerodim", arg=rng.randrange(1000), field=rng.choice(["W", "V2"]))
             res.evaluations += 1
             res.count("zerodim")
-            run_case(case, tmp, res, queue, rng)
+            run_case(vb(case), tmp, res, queue, rng)
         # 2. predictions before / after reload
         for t in range(ctx.scale(40, 400, 200)):
             cls = rng.choice(["C", "I"])
@@ -1054,7 +1293,7 @@ def run(ctx, res):
             res.count("predict.cls." + cls)
             if n >= 11:
                 res.nontrivial.add(common.short_hash(case))
-            run_case(case, tmp, res, queue, rng)
+            run_case(vb(case), tmp, res, queue, rng)
         # 3. evaluate_model end to end
         for t in range(ctx.scale(50, 500, 250)):
             cls = rng.choice(["C", "I"])
@@ -1075,11 +1314,28 @@ def run(ctx, res):
                     res.count("evaluate.unequal_counts_total_divisible")
             if max(lens) >= 11:
                 res.count("evaluate.file_with_11plus")
-            distinct = run_case(case, tmp, res, queue, rng)
+            distinct = run_case(vb(case), tmp, res, queue, rng)
             if distinct and (max(lens) >= 11 or len(set(lens)) >= 2):
                 res.nontrivial.add(common.short_hash(case))
             if t < 2:
                 res.sample({"kind": "evaluate", "cls": cls, "chain_lengths": lens, "order": case["order"]})
+        # 3a. checklist item 18: the commands that load collections (calculate_scores, calculate_distance_matrix) with probing plug-ins
+        for t in range(ctx.scale(12, 120, 60)):
+            cls = rng.choice(["C", "I"])
+            case = gen_eval_case(rng, cls, force_big=(t % 3 == 0))
+            for c in case["chains"]:
+                c["size"] = len(c["thetas"])                      # complete files: inside the quantifier
+            case["kind"] = "entry"
+            lens = [len(c["thetas"]) for c in case["chains"]]
+            res.evaluations += 1
+            res.count("class.entry-point.calculate_scores")
+            res.count("class.entry-point.calculate_distance_matrix")
+            if max(lens) >= 11:
+                res.count("class.entry-point.file_with_11plus")
+            if len(set(lens)) >= 2:
+                res.count("class.entry-point.unequal_counts")
+            if run_case(vb(case), tmp, res, queue, rng):
+                res.nontrivial.add(common.short_hash(case))
         # 3b. item 13: more than 127 / 128 chain files (chain ids cross the int8 boundary), one sample each except one file with two
         for k in ([rng.choice([129, 130])] if ctx.tier == "quick" else [129, 257]):
             cls = rng.choice(["C", "I"])
@@ -1095,7 +1351,7 @@ def run(ctx, res):
                 case["table"] = gen_table(rng, ns, nt)
             res.evaluations += 1
             res.count("class.width_boundary.n_chain_files_%d" % k)
-            if run_case(case, tmp, res, queue, rng):
+            if run_case(vb(case), tmp, res, queue, rng):
                 res.nontrivial.add(common.short_hash(case))
         # 4. in-memory concat (incl. incomplete holders and the empty list)
         for t in range(ctx.scale(100, 1500, 600)):
@@ -1109,7 +1365,7 @@ def run(ctx, res):
             res.count("concat.k.%d" % k)
             if len({n for _, n in holders}) >= 2:
                 res.nontrivial.add(common.short_hash(case))
-            run_case(case, tmp, res, queue, rng)
+            run_case(vb(case), tmp, res, queue, rng)
         # 4b. collections used again after they were operands (aliasing of combine/concat results with their operands)
         for t in range(ctx.scale(80, 1000, 400)):
             k = rng.randint(3, 5)
@@ -1132,7 +1388,7 @@ def run(ctx, res):
             if holders[1][1] == 0:
                 res.count("reuse.B_empty")
             res.nontrivial.add(common.short_hash(case))
-            run_case(case, tmp, res, queue, rng)
+            run_case(vb(case), tmp, res, queue, rng)
         # 5. refusals
         for t in range(ctx.scale(80, 600, 300)):
             size = rng.randint(0, 6)
@@ -1141,7 +1397,7 @@ def run(ctx, res):
             case = {"kind": "refusal", "op": op, "size": size, "n": n, "index": rng.randint(-3, size + 2)}
             res.evaluations += 1
             res.count("refusal." + op)
-            run_case(case, tmp, res, queue, rng)
+            run_case(vb(case), tmp, res, queue, rng)
         # ---- model
         if ctx.driver is not None:
             got = ctx.driver.ask(lines)
